@@ -163,6 +163,26 @@ pub fn render_scene(seed: u64, w: u32, h: u32, family: u32, init: Option<Pixmap>
             pm.data_mut().copy_from_slice(bg.data());
         }
     }
+    if family == 9 {
+        // a gradient with more than 256 stops (a colour map), drawn in the high-precision pipeline over the whole width
+        let n = 300 + r.below(300);
+        let mut v = Vec::new();
+        for i in 0..n {
+            v.push(GradientStop::new(i as f32 / (n - 1) as f32, Color::from_rgba(r.unit(), r.unit(), r.unit(), 1.0).unwrap()));
+        }
+        let mut paint = Paint::default();
+        paint.force_hq_pipeline = true;
+        paint.anti_alias = false;
+        if let Some(sh) = LinearGradient::new(Point::from_xy(0.0, 0.0), Point::from_xy(w as f32, 0.0), v, SpreadMode::Pad, Transform::identity()) {
+            paint.shader = sh;
+            if let Some(rc) = Rect::from_xywh(0.0, 0.0, w as f32, h as f32) {
+                pm.fill_rect(rc, &paint, Transform::identity(), None);
+            }
+        }
+        let mut out = vec![0i128, 0];
+        out.extend(pm.data().iter().map(|x| *x as i128));
+        return (out, pm);
+    }
     let ndraws = 1 + r.below(3);
     let (mut uses_recip, mut recip_gamma) = (0i128, 0i128);
     // family 8: a pattern source with more than 32767 columns / rows (the gather index y * width + x leaves 16 bits)
